@@ -247,9 +247,17 @@ func (x *Exec) opHostile(st *Step) {
 	accepted := false
 	// whatever the server answers must be well-formed and go to the sender; relay emissions are
 	// not expected from garbage unless the state allows it, in which case the model is resynced
+	in, inErr := ref.Parse(data)
 	for _, d := range o.s2c {
 		if !sameUDP(d.To, &net.UDPAddr{IP: src.Local().IP, Port: src.Local().Port}) {
 			x.fail([]string{"C09", "C19", "C04"}, "hostile-response-misdirected", "a %s datagram from %v made the server write to %v", class, src.Local(), d.To)
+
+			return
+		}
+		if inErr == nil && (in.Class == ref.ClassSuccess || in.Class == ref.ClassError) && len(d.Data) >= 20 && d.Data[0]&0xC0 == 0 {
+			// a response is never answered: two endpoints that answer each other's responses
+			// keep a datagram bouncing between them for ever (one spoofed packet starts it)
+			x.fail([]string{"C09"}, "response-answered", "a STUN %s (method %#x) from %v was answered with %d bytes - answering responses lets one spoofed datagram start an endless exchange between two servers", map[int]string{ref.ClassSuccess: "success response", ref.ClassError: "error response"}[in.Class], in.Method, src.Local(), len(d.Data))
 
 			return
 		}
